@@ -1,9 +1,12 @@
-(* Proofs about Model/History.v (property C18): every read of every reachable state equals
-   the read on pristine copies - by induction over the list of operations - under the
-   hypotheses the induction forces:
-     H1  the shim does not raise on the pristine dict and its result is a fixed point of the shim
-     H2  a caller-owned dict is only ever used with ONE dimension
-   (H3, about responses, is in the second part). *)
+(* Proofs about Model/History.v (property C18): every read of every reachable state equals the
+   read on pristine copies - by induction over the list of operations - and the caller-owned dicts
+   are the pristine ones after any history.
+
+   Since the repair of the in-place rewriting (commit 51c19c01) the induction needs NO hypothesis on
+   the history, on the dicts or on the translation [shim]: not H1 (the translation does not raise
+   and its result is a fixed point), not H2 (a dict is used with one dimension only).  The invariant
+   is simply: the caller's dicts are the pristine ones, every object's cached translation is the
+   translation of its pristine dict, every cached value is the value on pristine copies. *)
 From Coq Require Import ZArith List Bool Lia Arith String.
 From CC Require Import Base.Ident Model.Shim Model.History.
 Import ListNotations.
@@ -56,69 +59,60 @@ Section Pure.
   Hypothesis P_eqb_sound : forall a b, P_eqb a b = true -> a = b.
 
   Variable ts : nat -> X.            (* pristine content of the caller-owned dicts *)
-  Variable used : nat -> Prop.       (* the dicts the history uses *)
-  Variable dimof : nat -> D.         (* H2: the one dimension dict i is used with *)
-  Let T1 (i : nat) : X := fst (shim (dimof i) (ts i)).
-  Hypothesis H1_no_raise : forall i, used i -> snd (shim (dimof i) (ts i)) = None.
-  Hypothesis H1_fixed : forall i, used i -> shim (dimof i) (T1 i) = (T1 i, None).
 
-  Notation obj := (obj D P V).
+  Notation obj := (obj D X P V).
   Notation state := (state D X P V).
   Notation op := (op D P).
+  Notation fresh := (fresh D X P V shim cons).
 
-  Definition op_ok (x : op) : Prop :=
-    match x with
-    | New d i => used i /\ d = dimof i
-    | Read _ _ => True
-    end.
+  (* ---- no step writes a caller-owned dict ---------------------------------------------------- *)
+  Lemma read_dicts s o p : s_dicts (fst (read D X P V shim cons P_eqb cacheable s o p)) = s_dicts s.
+  Proof.
+    unfold read. destruct (nth_error (s_objs s) o) as [ob|]; [|reflexivity].
+    destruct (assoc P V P_eqb p (o_cache ob)); [reflexivity|].
+    destruct (get_shim D X P V shim s ob) as [ob1 [t'|ex]]; reflexivity.
+  Qed.
 
-  Definition dicts_ok (f : nat -> X) : Prop := forall i, used i -> f i = ts i \/ f i = T1 i.
+  Lemma step_dicts sr x :
+    s_dicts (fst (step D X P V shim cons P_eqb cacheable sr x)) = s_dicts (fst sr).
+  Proof.
+    destruct sr as [s rs]. destruct x as [d i|o p]; simpl; [reflexivity|].
+    pose proof (read_dicts s o p) as R.
+    destruct (read D X P V shim cons P_eqb cacheable s o p) as [s' r]. exact R.
+  Qed.
 
-  Definition obj_ok (f : nat -> X) (ob : obj) (pd : D * nat) : Prop :=
-    o_dim ob = fst pd /\ o_dict ob = snd pd /\ used (snd pd) /\ fst pd = dimof (snd pd) /\
-    (o_shimmed ob = true -> f (snd pd) = T1 (snd pd)) /\
-    (forall p v, assoc P V P_eqb p (o_cache ob) = Some v -> v = cons (fst pd) (T1 (snd pd)) p).
+  Lemma fold_dicts ops : forall sr,
+    s_dicts (fst (fold_left (step D X P V shim cons P_eqb cacheable) ops sr)) = s_dicts (fst sr).
+  Proof.
+    induction ops as [|x ops IH]; intros sr; [reflexivity|].
+    cbn [fold_left]. rewrite IH. apply step_dicts.
+  Qed.
+
+  (* the caller's dicts after ANY history are the pristine ones *)
+  Theorem dicts_unchanged ops :
+    s_dicts (final D X P V shim cons P_eqb cacheable ts ops) = ts.
+  Proof. unfold final. rewrite fold_dicts. reflexivity. Qed.
+
+  (* ---- every read equals the read on pristine copies ------------------------------------------ *)
+  Definition obj_ok (ob : obj) (pd : D * nat) : Prop :=
+    o_dim ob = fst pd /\ o_dict ob = snd pd /\
+    (forall t', o_shim ob = Some t' -> shim (fst pd) (ts (snd pd)) = (t', None)) /\
+    (forall p v, assoc P V P_eqb p (o_cache ob) = Some v -> fresh (fst pd) (ts (snd pd)) p = Ok v).
 
   Definition Inv (s : state) (objs : list (D * nat)) : Prop :=
-    dicts_ok (s_dicts s) /\ Forall2 (obj_ok (s_dicts s)) (s_objs s) objs.
+    s_dicts s = ts /\ Forall2 obj_ok (s_objs s) objs.
 
-  Lemma shim_any i t : used i -> t = ts i \/ t = T1 i -> shim (dimof i) t = (T1 i, None).
-  Proof.
-    intros U [->| ->].
-    - rewrite (surjective_pairing (shim (dimof i) (ts i))). rewrite (H1_no_raise i U). reflexivity.
-    - apply H1_fixed. exact U.
-  Qed.
-
-  Lemma fresh_ok i p : used i ->
-    fresh D X P V shim cons (dimof i) (ts i) p = Ok (cons (dimof i) (T1 i) p).
-  Proof.
-    intros U. unfold fresh. rewrite (shim_any i (ts i) U (or_introl eq_refl)). reflexivity.
-  Qed.
-
-  (* changing dict i to T1 i keeps every object's invariant *)
-  Lemma obj_ok_set f i ob pd :
-    obj_ok f ob pd -> obj_ok (set_dict X f i (T1 i)) ob pd.
-  Proof.
-    intros [A [B [C [E [F G]]]]]. repeat split; try assumption.
-    intros Hs. unfold set_dict. destruct (Nat.eqb_spec (snd pd) i) as [->|N]; [reflexivity|].
-    apply F. exact Hs.
-  Qed.
-
-  Lemma dicts_ok_set f i : dicts_ok f -> dicts_ok (set_dict X f i (T1 i)).
-  Proof.
-    intros H j U. unfold set_dict. destruct (Nat.eqb_spec j i) as [->|N]; [right; reflexivity|].
-    apply H. exact U.
-  Qed.
+  Lemma fresh_of_shim d i t' p : shim d (ts i) = (t', None) -> fresh d (ts i) p = Ok (cons d t' p).
+  Proof. intros H. unfold History.fresh. rewrite H. reflexivity. Qed.
 
   (* storing the value of a read keeps the object's invariant *)
-  Lemma obj_ok_cache f ob pd p :
-    obj_ok f ob pd ->
-    obj_ok f (mk_obj (o_dim ob) (o_dict ob) (o_shimmed ob)
-                     ((p, cons (fst pd) (T1 (snd pd)) p) :: o_cache ob)) pd.
+  Lemma obj_ok_cache ob pd p v :
+    obj_ok ob pd -> fresh (fst pd) (ts (snd pd)) p = Ok v ->
+    obj_ok (mk_obj (o_dim ob) (o_dict ob) (o_shim ob) ((p, v) :: o_cache ob)) pd.
   Proof.
-    intros [A [B [C [E [F G]]]]]. repeat split; simpl; try assumption.
-    intros q v. destruct (P_eqb q p) eqn:Eq.
-    - intros H. inversion H; subst. apply P_eqb_sound in Eq. subst q. reflexivity.
+    intros [A [B [C G]]] Hv. repeat split; simpl; try assumption.
+    intros q w. destruct (P_eqb q p) eqn:Eq.
+    - intros H. inversion H; subst. apply P_eqb_sound in Eq. subst q. exact Hv.
     - apply G.
   Qed.
 
@@ -127,7 +121,7 @@ Section Pure.
     let sr := read D X P V shim cons P_eqb cacheable s o p in
     Inv (fst sr) objs /\
     snd sr = match nth_error objs o with
-             | Some (d, i) => fresh D X P V shim cons d (ts i) p
+             | Some (d, i) => fresh d (ts i) p
              | None => Raise ValueErr
              end.
   Proof.
@@ -136,74 +130,67 @@ Section Pure.
     destruct (nth_error (s_objs s) o) as [ob|] eqn:Eo; destruct (nth_error objs o) as [[d i]|] eqn:Ep;
       try contradiction.
     2:{ simpl. split; [split; assumption|reflexivity]. }
-    pose proof Hn as Hok. destruct Hn as [A [B [C [E [F G]]]]]. simpl in A, B, C, E, F, G.
-    assert (Efresh : fresh D X P V shim cons d (ts i) p = Ok (cons d (T1 i) p)).
-    { rewrite E. apply fresh_ok. exact C. }
-    rewrite Efresh.
+    pose proof Hn as Hok. destruct Hn as [A [B [C G]]]. simpl in A, B, C, G.
     destruct (assoc P V P_eqb p (o_cache ob)) as [v|] eqn:Ec.
-    - simpl. split; [split; assumption|]. rewrite (G p v Ec). reflexivity.
-    - unfold do_shim. destruct (o_shimmed ob) eqn:Es.
-      + (* already shimmed: the dict is T1 i *)
-        simpl. rewrite A, B. rewrite (F eq_refl).
-        split; [|reflexivity]. split; [exact HD|]. simpl.
-        destruct (cacheable (cons d (T1 i) p)).
+    - (* cached on the object *)
+      simpl. split; [split; assumption|]. symmetry. exact (G p v Ec).
+    - unfold get_shim. destruct (o_shim ob) as [t'|] eqn:Es.
+      + (* translated before: the object's own dict *)
+        pose proof (fresh_of_shim d i t' p (C t' eq_refl)) as Hf.
+        rewrite A. rewrite Hf. split; [|reflexivity]. split; [exact HD|]. simpl.
+        destruct (cacheable (cons d t' p)).
         * apply (Forall2_set_nth _ _ _ o _ (d, i) HO Ep).
-          pose proof (obj_ok_cache (s_dicts s) ob (d, i) p Hok) as K. simpl in K.
-          rewrite A, B in K. rewrite ?Es in K. rewrite ?Es. exact K.
+          pose proof (obj_ok_cache ob (d, i) p (cons d t' p) Hok Hf) as K. simpl in K.
+          rewrite A in K. exact K.
         * apply (Forall2_set_nth _ _ _ o _ (d, i) HO Ep). exact Hok.
-      + (* first read of this object: shim the current content of the caller's dict *)
-        rewrite E in A, Ep, G |- *. rewrite A, B. rewrite (shim_any i (s_dicts s i) C (HD i C)). simpl.
-        assert (K0 : obj_ok (set_dict X (s_dicts s) i (T1 i))
-                       (mk_obj (dimof i) i true (o_cache ob)) (dimof i, i)).
-        { repeat split; simpl; try assumption; try congruence; try exact G.
-          intros _. unfold set_dict. rewrite Nat.eqb_refl. reflexivity. }
-        assert (HO1 : Forall2 (obj_ok (set_dict X (s_dicts s) i (T1 i)))
-                        (set_nth o (mk_obj (dimof i) i true (o_cache ob)) (s_objs s)) objs).
-        { apply (Forall2_set_nth _ _ _ o _ (dimof i, i)); [|exact Ep|exact K0].
-          eapply Forall2_weaken; [|exact HO]. intros a b. apply obj_ok_set. }
-        assert (Ev : set_dict X (s_dicts s) i (T1 i) i = T1 i).
-        { unfold set_dict. rewrite Nat.eqb_refl. reflexivity. }
-        rewrite Ev. split; [|reflexivity].
-        split; [apply dicts_ok_set; exact HD|]. simpl.
-        destruct (cacheable (cons (dimof i) (T1 i) p)).
-        * apply (Forall2_set_nth _ _ _ o _ (dimof i, i) HO1 Ep).
-          pose proof (obj_ok_cache _ _ (dimof i, i) p K0) as K. simpl in K. exact K.
-        * apply (Forall2_set_nth _ _ _ o _ (dimof i, i) HO1 Ep). exact K0.
+      + (* first read of this object: translate the caller's (pristine) dict into a dict of its own *)
+        rewrite A, B, HD. unfold History.fresh.
+        destruct (shim d (ts i)) as [t' [ex|]] eqn:Esh.
+        * (* the translation raises: nothing is cached, nothing changes *)
+          simpl. split; [split; assumption|reflexivity].
+        * assert (K0 : obj_ok (mk_obj d i (Some t') (o_cache ob)) (d, i)).
+          { repeat split; simpl.
+            - intros t'' H. inversion H; subst. exact Esh.
+            - exact G. }
+          assert (Hf : fresh d (ts i) p = Ok (cons d t' p)) by (apply fresh_of_shim; exact Esh).
+          simpl. split; [|reflexivity]. split; [first [exact HD | reflexivity]|]. simpl.
+          destruct (cacheable (cons d t' p)).
+          -- apply (Forall2_set_nth _ _ _ o _ (d, i) HO Ep).
+             exact (obj_ok_cache _ (d, i) p _ K0 Hf).
+          -- apply (Forall2_set_nth _ _ _ o _ (d, i) HO Ep). exact K0.
   Qed.
 
   Lemma step_inv s objs rs x :
-    op_ok x -> Inv s objs ->
+    Inv s objs ->
     let sr := step D X P V shim cons P_eqb cacheable (s, rs) x in
     let pr := pstep D X P V shim cons ts (objs, rs) x in
     Inv (fst sr) (fst pr) /\ snd sr = snd pr.
   Proof.
-    intros Hx HI. destruct x as [d i|o p]; simpl.
-    - destruct Hx as [U Ed]. destruct HI as [HD HO]. split; [|reflexivity]. split; [exact HD|]. simpl.
-      apply Forall2_snoc; [exact HO|]. repeat split; simpl; try assumption; try discriminate.
+    intros HI. destruct x as [d i|o p]; simpl.
+    - destruct HI as [HD HO]. split; [|reflexivity]. split; [exact HD|]. simpl.
+      apply Forall2_snoc; [exact HO|]. repeat split; simpl; intros; discriminate.
     - pose proof (read_inv s objs o p HI) as R. cbv zeta in R.
       destruct (read D X P V shim cons P_eqb cacheable s o p) as [s' r]. simpl in R.
       destruct R as [R1 R2]. destruct (nth_error objs o) as [[d i]|]; simpl; subst r; split; auto.
   Qed.
 
   Lemma fold_inv ops s objs rs :
-    Forall op_ok ops -> Inv s objs ->
+    Inv s objs ->
     snd (fold_left (step D X P V shim cons P_eqb cacheable) ops (s, rs)) =
     snd (fold_left (pstep D X P V shim cons ts) ops (objs, rs)).
   Proof.
-    revert s objs rs. induction ops as [|x ops IH]; intros s objs rs HF HI; [reflexivity|].
-    inversion HF as [|? ? Hx HF']; subst. cbn [fold_left].
-    pose proof (step_inv s objs rs x Hx HI) as S. cbv zeta in S.
+    revert s objs rs. induction ops as [|x ops IH]; intros s objs rs HI; [reflexivity|].
+    cbn [fold_left].
+    pose proof (step_inv s objs rs x HI) as S. cbv zeta in S.
     destruct (step D X P V shim cons P_eqb cacheable (s, rs) x) as [s' rs'].
     destruct (pstep D X P V shim cons ts (objs, rs) x) as [objs' prs']. simpl in S.
     destruct S as [S1 S2]. subst prs'. apply IH; assumption.
   Qed.
 
-  (* THE history theorem: every read of every history equals the read on pristine copies *)
+  (* THE history theorem: every read of EVERY history equals the read on pristine copies *)
   Theorem reads_pure ops :
-    Forall op_ok ops ->
     run D X P V shim cons P_eqb cacheable ts ops = run_pristine D X P V shim cons ts ops.
   Proof.
-    intros HF. unfold run, run_pristine. apply fold_inv; [exact HF|].
-    split; [intros i U; left; reflexivity | constructor].
+    unfold run, run_pristine. apply fold_inv. split; [reflexivity | constructor].
   Qed.
 End Pure.
